@@ -49,8 +49,12 @@ def record_run(kind, cap, targets, p, n, seed, pass_y_keyword=False):
     random.seed(seed)
     np.random.seed(seed % 2 ** 32)
     st = make(kind, cap, targets, p)
+    # a second live object of the same class (other capacity), fed other items in lockstep: objects must not share state
+    comp = make(kind, 1 if kind == "sequence" else cap + 2, not targets, p) if seed % 2 else None
     ev = []
     for t in range(1, n + 1):
+        if comp is not None:
+            comp.update({"id": -t, "v": -1.0}, "decoy%d" % t)
         bx, by = project(st)
         x, y = item(t)
         if pass_y_keyword:
